@@ -75,7 +75,11 @@ class View:
         """dependency edges that are part of the run: task_dep / implicit file deps / calc_dep (incl. the
         ones calc results added) always; setup edges of t only once t is to be executed (setup tasks are
         selected lazily, doc: 'setup-tasks are only executed if the task is to be run')"""
-        return {u: set(self.non_setup_deps(u)) | (set(self.setup.get(u, [])) if (full or self.activated(u)) else set())
+        # the declared edges are taken from the generated case itself (not from what TaskControl made of them):
+        # task_dep, calc_dep, and file_dep on the target of another -- or the same -- task
+        decl = {u: set(self.case['tasks'][u]['task_dep']) | set(self.case['tasks'][u]['calc_dep']) | set(self.case['tasks'][u]['file_edge'])
+                for u in range(self.n)}
+        return {u: decl[u] | set(self.non_setup_deps(u)) | (set(self.setup.get(u, [])) if (full or self.activated(u)) else set())
                 for u in range(self.n)}
 
     def has_cycle(self, full=False):
@@ -211,6 +215,15 @@ def oracle_c09(v):
 
 def oracle_c11(v):
     bad = []
+    # a setup-task completes (final report) before the task requiring it starts
+    for t in range(v.n):
+        ps = v.first(v.start_code, t)
+        if ps is None:
+            continue
+        for sx in v.setup.get(t, []):
+            fin = [p for p, e in enumerate(v.ev) if e[0] in FINAL and len(e) > 1 and e[1] == sx]
+            if not fin or min(fin) > ps:
+                bad.append(('setup-not-before-task', 'task %d started before its setup-task %d had finished' % (t, sx)))
     requirers = {}
     for t in range(v.n):
         for s in v.setup.get(t, []):
@@ -364,11 +377,49 @@ def gen_for(pid, rng):
     return c
 
 
+
+def edge_family():
+    """systematic small cases: one dependent (task 0), one dependency (task 1) attached through each kind
+    of edge, every outcome of the dependency, dependency processed before / after / only through the
+    dependent, plus an independent task; --continue; every flavour.  (A failed / ignored dependency that
+    is ALREADY processed when the dispatcher first looks at the dependent takes another code path
+    (_node_add_wait_run) than one that finishes later (_update_waiting).)"""
+    def blank():
+        return dict(task_dep=[], setup=[], calc_dep=[], file_edge=[], teardown=False, dbignore=False, check='run', argerr=False,
+                    outcome='ok', calc_task=[], calc_file=[], calc_calc=[], getargs=[])
+    cases = []
+    variants = [('ok', {}), ('fail', dict(outcome='fail')), ('error', dict(outcome='error')), ('saveerr', dict(outcome='saveerr')),
+                ('failv', dict(outcome='failv')), ('checkerr', dict(check='err')), ('ignored', dict(dbignore=True)), ('utd', dict(check='utd'))]
+    for kind in ('task_dep', 'setup', 'calc_dep', 'file_edge', 'calc_returned_task', 'calc_returned_file', 'calc_returned_calc'):
+        for vname, upd in variants:
+            for sel in ([1, 0, 2], [0, 1, 2], [0, 2], [2, 1, 0]):
+                for fl, k in (('serial', 1), ('thread', 2), ('proc', 2)):
+                    t0, t1, t2, t3 = blank(), blank(), blank(), blank()
+                    t1.update(upd)
+                    n = 3
+                    if kind in ('task_dep', 'setup', 'calc_dep', 'file_edge'):
+                        t0[kind] = [1]
+                    else:
+                        # task 0 --calc_dep--> task 3 (fine), whose saved values name task 1
+                        n = 4
+                        t0['calc_dep'] = [3]
+                        t3[{'calc_returned_task': 'calc_task', 'calc_returned_file': 'calc_file', 'calc_returned_calc': 'calc_calc'}[kind]] = [1]
+                        if sel[0] != 0:
+                            sel = [3] + sel      # the calc task is already processed when task 0 is first looked at
+                        elif fl == 'serial' or k == 2:
+                            # ... also when the returned task is NOT processed yet
+                            cases.append(dict(n=n, tasks=[dict(t) for t in [t0, t1, t2, t3]], selected=[3] + list(sel), cont=True, always=False,
+                                              flavour=fl, k=k, sched=[0] * 12))
+                    tasks = [t0, t1, t2, t3][:n]
+                    cases.append(dict(n=n, tasks=[dict(t) for t in tasks], selected=list(sel), cont=True, always=False,
+                                      flavour=fl, k=k, sched=[0] * 12))
+    return cases
+
 def run_property(ctx, pid, n_quick=320, n_thorough=4000, extra_cases=()):
     out = Outcome()
     oracle = ORACLES[pid]
     cases, skipped = [], 0
-    todo = list(extra_cases) + [None] * ctx.n(n_quick, n_thorough)
+    todo = list(extra_cases) + edge_family() + [None] * ctx.n(n_quick, n_thorough)
     for item in todo:
         case = item if item is not None else gen_for(pid, ctx.rng)
         res = runlib.run_impl(case)
@@ -398,7 +449,8 @@ def run_property(ctx, pid, n_quick=320, n_thorough=4000, extra_cases=()):
     out.assumptions = ['scheduler granularity (commutation of main-thread segments and worker steps except through the queues)',
                        'process flavour simulated in threads with per-worker runner copies',
                        'the dependency manager is a recording fake at the runner seam']
-    out.rule = ('random task graphs (2-10 tasks; task_dep, file_dep-on-target, setup, getargs, calc_dep incl. returned deps, failures of every kind, ignore, up-to-date, '
+    out.extra['edge_family_cases'] = len(edge_family())
+    out.rule = ('every edge kind x dependency outcome x processing order x flavour on 3-4 task graphs (edge_family); random task graphs (2-10 tasks; task_dep, file_dep-on-target, setup, getargs, calc_dep incl. returned deps, failures of every kind, ignore, up-to-date, '
                 '--continue/--always) x {serial, thread flavour, process flavour; k=1..4; random schedules}, profile biased towards %s; '
                 'non-trivial = distinct trace with >= 6 events' % pid)
     return out
